@@ -381,6 +381,105 @@ func TestPropEveryFaultPosition(t *testing.T) {
 	})
 }
 
+// ---- the next statement on a connection whose previous phase one failed ----------------------
+
+type afterCase struct {
+	Kind string `json:"kind"` // after-fault
+	Mode string `json:"mode"` // auto | tx (how the first, faulted statement runs)
+	K    int    `json:"k"`    // the k-th phase-one statement of the first local transaction fails
+	Drop bool   `json:"drop"` // … by losing the connection
+}
+
+var afterTally struct{ reached int }
+
+// runAfterFault: on one pinned connection inside a global transaction a first statement meets a fault in
+// its phase one; whatever happened to it, the next autocommit statement on that connection must again be
+// a complete phase one (undo log in the same local transaction, branch registered before the commit).
+func runAfterFault(c afterCase) *pt.Failure {
+	return pt.Guard("C02/crash", func() *pt.Failure {
+		env.ResetCase()
+		env.CleanUndo()
+		atenv.UndoConfig("json", "None", true, true)
+		n := atenv.NextCase()
+		t1, t2 := atenv.TableName(n, 0), atenv.TableName(n, 1)
+		for _, tn := range []string{t1, t2} {
+			for _, q := range []string{"CREATE TABLE " + tn + " (id INT PRIMARY KEY, v INT NOT NULL)", "INSERT INTO " + tn + " VALUES (1, 10), (2, 20)"} {
+				if _, err := env.Bare.Exec(q); err != nil {
+					return pt.Failf("C02/harness/setup", "%v", err)
+				}
+			}
+		}
+		defer env.DropTables([]string{t1, t2})
+		env.Srv.ResetJournal()
+		count := 0
+		f := &memsql.Fault{DropConn: c.Drop, Match: func(e *memsql.Entry) bool {
+			if !isPhaseOneStmt(e) {
+				return false
+			}
+			count++
+			return count == c.K
+		}}
+		env.Srv.AddFault(f)
+		var res atenv.BranchResult
+		xid, _ := atenv.Global("c02-after", func(cx context.Context) error {
+			res = atenv.RunBranchOpt(cx, env.AT, atenv.BranchOpts{Mode: c.Mode, Via: "conn", After: &atenv.StmtText{SQL: "UPDATE " + t2 + " SET v = v + 1 WHERE id = 1"}},
+				[]atenv.StmtText{{SQL: "UPDATE " + t1 + " SET v = v + 1 WHERE id = 1"}})
+			return nil
+		})
+		env.Srv.ClearFaults()
+		if f.Fired() == 0 || len(res.Stmts) < 2 {
+			return nil
+		}
+		afterTally.reached++
+		second := res.Stmts[len(res.Stmts)-1]
+		changed := false
+		for _, r := range env.Srv.Rows(atenv.Schema, t2) {
+			if r["id"] == int64(1) && r["v"] != int64(10) {
+				changed = true
+			}
+		}
+		info := fmt.Sprintf("first statement (%s, fault at its statement %d, drop=%v) -> %+v; second statement -> %+v\n%s", c.Mode, c.K, c.Drop, res.Stmts[0], second, atenv.Tail(env.Srv.Journal(), 30))
+		if _, open, _ := env.Srv.Stats(); open != 0 {
+			return pt.Failf("C02/after-fault/transaction-left-open/"+c.Mode, "engine transaction left open on %v\n%s", env.Srv.OpenTxConns(), info)
+		}
+		if second.Err == "" && !changed {
+			return pt.Failf("C02/after-fault/silent-loss/"+c.Mode, "the second statement reported success but its row did not change\n%s", info)
+		}
+		if !changed {
+			return nil
+		}
+		hasUndo := false
+		for _, u := range env.UndoRows(xid) {
+			if b, ok := u["rollback_info"].([]byte); ok && strings.Contains(strings.ToUpper(string(b)), strings.ToUpper(t2)) {
+				hasUndo = true
+			}
+		}
+		if !hasUndo {
+			return pt.Failf("C02/after-fault/writes-without-undo-log/"+c.Mode, "the statement after the failed phase one committed its row without an undo log\n%s", info)
+		}
+		registered := false
+		for _, e := range env.TC.Events() {
+			if b, ok := e.Body.(message.BranchRegisterRequest); ok && e.Dir == "c2s" && strings.Contains(strings.ToUpper(b.LockKey), strings.ToUpper(t2)+":") {
+				registered = true
+			}
+		}
+		if !registered {
+			return pt.Failf("C02/after-fault/commit-without-registration/"+c.Mode, "the statement after the failed phase one committed without registering a branch\n%s", info)
+		}
+		return nil
+	})
+}
+
+func TestPropStatementAfterFault(t *testing.T) {
+	ctx.Check(t, func(rt *rapid.T) {
+		c := afterCase{Kind: "after-fault", Mode: rapid.SampledFrom([]string{"auto", "tx"}).Draw(rt, "mode"), K: rapid.IntRange(1, 9).Draw(rt, "k"), Drop: rapid.IntRange(0, 3).Draw(rt, "drop") == 0}
+		before := afterTally.reached
+		fl := runAfterFault(c)
+		ctx.Rec.Case("after-fault", afterTally.reached > before, fmt.Sprintf("after-fault|%s|%d|%v", c.Mode, c.K, c.Drop), c, "fault:after-fault")
+		ctx.Judge(rt, "after-fault", fl, c)
+	})
+}
+
 // TestPropRegisterNoReply: the coordinator never answers BranchRegister (thorough tier only: 20 s).
 func TestPropRegisterNoReply(t *testing.T) {
 	if !stats.Thorough() {
@@ -398,6 +497,10 @@ func TestPropRegisterNoReply(t *testing.T) {
 
 func TestPropReplaySaved(t *testing.T) {
 	ctx.ReplayAll(t, func(v *stats.Violation) *pt.Failure {
+		var a afterCase
+		if err := json.Unmarshal(v.Case, &a); err == nil && a.Kind == "after-fault" {
+			return runAfterFault(a)
+		}
 		var c Case
 		if err := json.Unmarshal(v.Case, &c); err != nil {
 			return pt.Failf("C02/replay", "bad case: %v", err)
